@@ -307,6 +307,63 @@ Section NodeInv.
     destruct (iter (2 * length (n_log n1) + 8) (ready_iter page1 id) (n1, node_cfg boot n, pend1, n_commit n)) as [[[n2 c2] pend2] a2].
     cbn. exact H2.
   Qed.
+
+  (* ---- a batched proposal: the examination of its entries, one after the other *)
+  Lemma batch_cc_PD : forall c ps n pend,
+    PD n pend -> PD (fst (batch_cc id c ps n pend)) (snd (batch_cc id c ps n pend)).
+  Proof.
+    intros c. induction ps as [|p ps IH]; intros n pend H; [exact H|].
+    cbn [batch_cc]. pose proof (handle_cc_PD c (EvPropose p) n pend H) as H1.
+    destruct (handle_cc id c (EvPropose p) n pend) as [[n1 out] pend1]. apply IH. exact H1.
+  Qed.
+
+  (* what one examined entry does to the node: nothing, or one entry appended *)
+  Lemma propose_cc_shape : forall c p n pend,
+    let n' := fst (fst (handle_cc id c (EvPropose p) n pend)) in
+    n_term n' = n_term n /\ n_vote n' = n_vote n /\ n_commit n' = n_commit n /\ n_role n' = n_role n /\
+    (n_log n' = n_log n \/ (n_role n = Leader /\ exists q, n_log n' = n_log n ++ [(n_term n, q)])).
+  Proof.
+    intros c p n pend. unfold handle_cc. destruct (n_role n) eqn:Er; cbn [fst]; try (repeat split; auto; fail).
+    assert (Hp : forall q, let n' := propose q n in
+              n_term n' = n_term n /\ n_vote n' = n_vote n /\ n_commit n' = n_commit n /\ n_role n' = Leader /\
+              (n_log n' = n_log n \/ (Leader = Leader /\ exists q0, n_log n' = n_log n ++ [(n_term n, q0)]))).
+    { intros q. unfold propose. rewrite Er. cbn [set_log n_term n_vote n_commit n_role n_log].
+      split; [reflexivity|]. split; [reflexivity|]. split; [reflexivity|]. split; [exact Er|].
+      right. split; [reflexivity|]. exists q. reflexivity. }
+    destruct (negb (tracked c id)); cbn [fst]; [repeat split; auto|].
+    destruct (cc_of_payload p) as [op|]; cbn [fst]; [|apply Hp].
+    destruct ((n_commit n <? pend) || (joint c && negb match op with CcLeave => true | _ => false end)
+              || (negb (joint c) && match op with CcLeave => true | _ => false end)); cbn [fst]; apply Hp.
+  Qed.
+
+  Lemma batch_cc_shape : forall c ps n pend,
+    let n' := fst (batch_cc id c ps n pend) in
+    n_term n' = n_term n /\ n_vote n' = n_vote n /\ n_commit n' = n_commit n /\ n_role n' = n_role n /\
+    exists suf, n_log n' = n_log n ++ suf.
+  Proof.
+    intros c. induction ps as [|p ps IH]; intros n pend; [cbn; repeat split; exists []; rewrite app_nil_r; reflexivity|].
+    cbn [batch_cc]. pose proof (propose_cc_shape c p n pend) as (A & B & C & D & E). cbn zeta in A, B, C, D, E.
+    destruct (handle_cc id c (EvPropose p) n pend) as [[n1 out] pend1]. cbn [fst] in *.
+    destruct (IH n1 pend1) as (A' & B' & C' & D' & suf & E'). cbn zeta in *.
+    repeat split; try congruence.
+    destruct E as [E|(_ & q & E)]; [exists suf; rewrite E', E; reflexivity|].
+    exists ([(n_term n, q)] ++ suf). rewrite E', E, app_assoc. reflexivity.
+  Qed.
+
+  Theorem exec_batch_PD : forall ps n pend,
+    PD n pend -> PD (fst (fst (exec_batch boot page1 id ps (n, pend)))) (snd (fst (exec_batch boot page1 id ps (n, pend)))).
+  Proof.
+    intros ps n pend H. unfold exec_batch.
+    pose proof (batch_cc_PD (node_cfg boot n) ps n pend H) as H1.
+    destruct (batch_cc id (node_cfg boot n) ps n pend) as [n1 pend1]. cbn [fst snd] in H1.
+    pose proof (iter_PD (2 * length (n_log n1) + 8) n1 (node_cfg boot n) pend1 (n_commit n) H1) as H2.
+    destruct (iter (2 * length (n_log n1) + 8) (ready_iter page1 id) (n1, node_cfg boot n, pend1, n_commit n)) as [[[n2 c2] pend2] a2].
+    cbn. exact H2.
+  Qed.
+
+  Theorem exec_cce_PD : forall cev n pend,
+    PD n pend -> PD (fst (fst (exec_cce boot page1 id cev (n, pend)))) (snd (fst (exec_cce boot page1 id cev (n, pend)))).
+  Proof. intros [ev|ps] n pend H; cbn [exec_cce]; [apply exec_cc_PD|apply exec_batch_PD]; exact H. Qed.
 End NodeInv.
 
 (* ------------------------------------------------------------------ the system *)
@@ -315,8 +372,8 @@ Theorem cc_pending_discipline : forall boot page1 x,
 Proof.
   intros boot page1 x H. induction H as [|x x' Hr IH Hs]; intros i.
   - cbn. apply PD_not_leader. cbn. discriminate.
-  - destruct Hs as [id ev extra _ _]. cbn [cx_nodes]. unfold upd. destruct (i =? id) eqn:E; [|apply IH].
-    specialize (IH id). destruct (cx_nodes x id) as [n pend]. cbn [fst snd] in IH. apply exec_cc_PD. exact IH.
+  - destruct Hs as [id cev extra _ _]. cbn [cx_nodes]. unfold upd. destruct (i =? id) eqn:E; [|apply IH].
+    specialize (IH id). destruct (cx_nodes x id) as [n pend]. cbn [fst snd] in IH. apply exec_cce_PD. exact IH.
 Qed.
 
 (* ------------------------------------------------------------------ the follower's side of an append
